@@ -193,6 +193,19 @@ def self_referential_cases(ok_scripts):
     ]
     for i, (src, exp) in enumerate(cases):
         ok_scripts.append((("list", len(exp), "self-referential", i), src, render_list(exp)))
+    reads = [("perm := [2, 0, 1]\nprint(perm[perm[0]])\nprint(perm[perm[perm[0]]])\n", "1\n0\n"),
+             ("xs := [1, 2, 3]\nfn last() {\n    xs[0] = 7\n    return 2\n}\nprint(xs[last()])\nprint(xs[0])\n", "3\n7\n"),
+             ("xs := [0, 1, 2, 3]\nprint(xs[xs[1]:xs[3]])\n", render_list([1, 2])),
+             ("s := \"abc\"\nidx := [2, 0]\nprint(s[idx[idx[1] + 1]])\n", "a\n"),
+             ("o := {\"k\": [5, 6]}\nprint(o.k[o.k[0] - 5])\n", "5\n")]
+    for i, (src, exp) in enumerate(reads):
+        ok_scripts.append((("list", 3, "self-referential-read", i), src, exp))
+
+
+def self_referential_failures(fail_scripts):
+    """a range assignment whose right-hand side is the target list itself is checked like any other"""
+    for i, stmt in enumerate(["xs[0:2] = xs", "xs[1:9] = xs", "xs[(0 - 1):] = xs", "xs[:\"two\"] = xs", "xs[3:1] = xs", "xs[1:] = xs", "ys[0:2] = xs"]):
+        fail_scripts.append((("list", 3, "range-assign-self", i), f"xs := [1, 2, 3]\nys := xs\nprint(\"before\")\n{stmt}\nprint(\"unreachable\")\n", "before\n"))
 
 
 def cases_for_str(chars, ok_scripts, fail_scripts):
@@ -274,6 +287,7 @@ def run(ctx, model_ok):
     concat_fresh_cases(ok_scripts)
     concat_target_cases(ok_scripts)
     self_referential_cases(ok_scripts)
+    self_referential_failures(fail_scripts)
     ctx.cov["exhaustive"] = True
     for label, cs, must_fail in (("succeeding", ok_scripts, False), ("failing", fail_scripts, True)):
         srcs = [c[1] for c in cs]
